@@ -447,7 +447,7 @@ class Gen:
                     uses.append([i, [str(r.randint(0, min(up - 1, 9)))]])
                 continue
             if is_cont(a["kind"]):
-                lo, hi = 1, 4
+                lo, hi = 1, (4 if r.random() < 0.9 else r.randint(8, 30))          # sometimes long value lists
                 if a["card"]["t"] == "max": hi = min(hi, a["card"]["a"])
                 if a["card"]["t"] == "exact": lo = hi = a["card"]["a"]
                 if a["card"]["t"] == "range": lo, hi = a["card"]["a"], a["card"]["b"]
